@@ -16,20 +16,27 @@ import (
 	"fmt"
 	"math/rand"
 	"net"
+	"net/http"
+	"net/http/httptest"
 	"net/netip"
 	"os"
 	"strings"
 	"time"
 
+	"connectrpc.com/connect"
+	"github.com/quic-go/quic-go/http3"
 	"google.golang.org/grpc/credentials"
 	"google.golang.org/grpc/peer"
 	"google.golang.org/protobuf/types/known/timestamppb"
 
 	"github.com/scionproto/scion/control/config"
+	dkconnect "github.com/scionproto/scion/control/drkey/connect"
 	dkgrpc "github.com/scionproto/scion/control/drkey/grpc"
 	"github.com/scionproto/scion/pkg/addr"
+	libconnect "github.com/scionproto/scion/pkg/connect"
 	"github.com/scionproto/scion/pkg/drkey"
 	cppb "github.com/scionproto/scion/pkg/proto/control_plane"
+	"github.com/scionproto/scion/pkg/proto/control_plane/v1/control_planeconnect"
 	drkeypb "github.com/scionproto/scion/pkg/proto/drkey"
 
 	"verifharness/internal/vt"
@@ -253,15 +260,50 @@ func (c conc) absProto(p drkey.Protocol) string {
 	return "unknown"
 }
 
+// ---------------------------------------------------------------- the connect-RPC path, in process
+// The request is sent by the generated connect client through an http.RoundTripper that hands it
+// straight to the handler chain the control service registers:
+//   libconnect.AttachPeer( mux{ NewDRKeyInterServiceHandler(dkconnect.Server), NewDRKeyIntraServiceHandler(...) } )
+// so peer extraction (http.Request.RemoteAddr / the HTTP3 remote-address context value, and
+// http.Request.TLS -> credentials.TLSInfo) and the connect wrapper are the real code. No socket.
+
+type inproc struct {
+	h          http.Handler
+	remoteAddr string               // http.Request.RemoteAddr as net/http sets it for TCP ("ip:port")
+	h3addr     net.Addr             // value of http3.RemoteAddrContextKey (HTTP3 requests)
+	tls        *tls.ConnectionState // http.Request.TLS
+}
+
+func (t *inproc) RoundTrip(r *http.Request) (*http.Response, error) {
+	r2 := r.Clone(r.Context())
+	r2.RemoteAddr = t.remoteAddr
+	r2.TLS = t.tls
+	r2.RequestURI = r.URL.RequestURI()
+	if t.h3addr != nil {
+		r2 = r2.WithContext(context.WithValue(r2.Context(), http3.RemoteAddrContextKey, t.h3addr))
+	}
+	rec := httptest.NewRecorder()
+	t.h.ServeHTTP(rec, r2)
+	return rec.Result(), nil
+}
+
+func connectHandler(srv *dkgrpc.Server) http.Handler {
+	mux := http.NewServeMux()
+	mux.Handle(control_planeconnect.NewDRKeyInterServiceHandler(dkconnect.Server{Server: srv}))
+	mux.Handle(control_planeconnect.NewDRKeyIntraServiceHandler(dkconnect.Server{Server: srv}))
+	return libconnect.AttachPeer(mux)
+}
+
 // ---------------------------------------------------------------- one case
 
-func runCase(w, cw *vt.Writer, rng *rand.Rand, id, k int, q []string) {
+func runCase(w, cw *vt.Writer, rng *rand.Rand, id, k int, q []string, via string) {
 	// q: rpc proto src dst srcHost dstHost peer allow cert model why
 	rpc, protoC, src, dst, srcHost, dstHost, peerC, allowC, certC := q[0], q[1], q[2], q[3], q[4], q[5], q[6], q[7], q[8]
 	c := concretise(rng, k, protoC)
 
 	ctx := context.Background()
 	ver := &verifier{ias: map[*x509.Certificate]addr.IA{}}
+	tr := &inproc{}
 	if peerC != "none" {
 		ip := net.IP(c.peerIP.AsSlice())
 		if c.peerIP.Is4() && c.peer16 {
@@ -271,21 +313,27 @@ func runCase(w, cw *vt.Writer, rng *rand.Rand, id, k int, q []string) {
 		p := &peer.Peer{}
 		if peerC == "tcp" {
 			p.Addr = &net.TCPAddr{IP: ip, Port: port}
+			tr.remoteAddr = netip.AddrPortFrom(c.peerIP, uint16(port)).String()
 		} else {
 			p.Addr = &net.UDPAddr{IP: ip, Port: port}
+			tr.h3addr = p.Addr
 		}
 		leaf := &x509.Certificate{}
 		switch certC {
 		case "noauth":
-		case "nontls":
+		case "nontls": // connect path: a TLS connection without client certificates gives no auth info
 			p.AuthInfo = otherAuth{}
+			tr.tls = &tls.ConnectionState{}
 		case "nochain":
 			p.AuthInfo = credentials.TLSInfo{State: tls.ConnectionState{}}
+			tr.tls = &tls.ConnectionState{PeerCertificates: []*x509.Certificate{}}
 		case "invalid":
 			p.AuthInfo = credentials.TLSInfo{State: tls.ConnectionState{PeerCertificates: []*x509.Certificate{leaf}}}
+			tr.tls = &tls.ConnectionState{PeerCertificates: []*x509.Certificate{leaf}}
 		case "local", "other":
 			ver.ias[leaf] = c.ia(certC)
 			p.AuthInfo = credentials.TLSInfo{State: tls.ConnectionState{PeerCertificates: []*x509.Certificate{leaf, {}}}}
+			tr.tls = &tls.ConnectionState{PeerCertificates: []*x509.Certificate{leaf, {}}}
 		}
 		ctx = peer.NewContext(ctx, p)
 	}
@@ -325,6 +373,57 @@ func runCase(w, cw *vt.Writer, rng *rand.Rand, id, k int, q []string) {
 				panicked = fmt.Sprint(r)
 			}
 		}()
+		if via == "connect" {
+			tr.h = connectHandler(srv)
+			inter := control_planeconnect.NewDRKeyInterServiceClient(&http.Client{Transport: tr}, "http://cs.invalid")
+			intra := control_planeconnect.NewDRKeyIntraServiceClient(&http.Client{Transport: tr}, "http://cs.invalid")
+			bg := context.Background()
+			switch rpc {
+			case "lvl1":
+				var r *connect.Response[cppb.DRKeyLevel1Response]
+				r, err = inter.DRKeyLevel1(bg, connect.NewRequest(&cppb.DRKeyLevel1Request{ValTime: ts, ProtocolId: pid}))
+				if r != nil {
+					key = r.Msg.Key
+				}
+			case "intra":
+				var r *connect.Response[cppb.DRKeyIntraLevel1Response]
+				r, err = intra.DRKeyIntraLevel1(bg, connect.NewRequest(&cppb.DRKeyIntraLevel1Request{ValTime: ts, ProtocolId: pid,
+					SrcIa: uint64(c.ia(src)), DstIa: uint64(c.ia(dst))}))
+				if r != nil {
+					key = r.Msg.Key
+				}
+			case "ashost":
+				var r *connect.Response[cppb.DRKeyASHostResponse]
+				r, err = intra.DRKeyASHost(bg, connect.NewRequest(&cppb.DRKeyASHostRequest{ValTime: ts, ProtocolId: pid,
+					SrcIa: uint64(c.ia(src)), DstIa: uint64(c.ia(dst)), DstHost: c.host(dstHost)}))
+				if r != nil {
+					key = r.Msg.Key
+				}
+			case "hostas":
+				var r *connect.Response[cppb.DRKeyHostASResponse]
+				r, err = intra.DRKeyHostAS(bg, connect.NewRequest(&cppb.DRKeyHostASRequest{ValTime: ts, ProtocolId: pid,
+					SrcIa: uint64(c.ia(src)), DstIa: uint64(c.ia(dst)), SrcHost: c.host(srcHost)}))
+				if r != nil {
+					key = r.Msg.Key
+				}
+			case "hosthost":
+				var r *connect.Response[cppb.DRKeyHostHostResponse]
+				r, err = intra.DRKeyHostHost(bg, connect.NewRequest(&cppb.DRKeyHostHostRequest{ValTime: ts, ProtocolId: pid,
+					SrcIa: uint64(c.ia(src)), DstIa: uint64(c.ia(dst)), SrcHost: c.host(srcHost), DstHost: c.host(dstHost)}))
+				if r != nil {
+					key = r.Msg.Key
+				}
+			case "sv":
+				var r *connect.Response[cppb.DRKeySecretValueResponse]
+				r, err = intra.DRKeySecretValue(bg, connect.NewRequest(&cppb.DRKeySecretValueRequest{ValTime: ts, ProtocolId: pid}))
+				if r != nil {
+					key = r.Msg.Key
+				}
+			default:
+				vt.Fatal("unknown rpc %q", rpc)
+			}
+			return
+		}
 		switch rpc {
 		case "lvl1":
 			var r *cppb.DRKeyLevel1Response
@@ -371,7 +470,7 @@ func runCase(w, cw *vt.Writer, rng *rand.Rand, id, k int, q []string) {
 		}
 	}()
 	if panicked != "" {
-		w.Emit(vt.M{"ev": "panic", "id": id, "k": k, "rpc": rpc})
+		w.Emit(vt.M{"ev": "panic", "id": id, "k": k, "rpc": rpc, "via": via})
 		cw.Emit(vt.M{"id": id, "k": k, "panic": panicked})
 		return
 	}
@@ -398,9 +497,9 @@ func runCase(w, cw *vt.Writer, rng *rand.Rand, id, k int, q []string) {
 	}
 	w.Emit(vt.M{"ev": "req", "id": id, "k": k, "rpc": rpc, "proto": protoC, "src": src, "dst": dst,
 		"srcHost": srcHost, "dstHost": dstHost, "peer": peerC, "allow": allowC, "cert": certC,
-		"model": q[9], "served": served, "ncalls": len(eng.calls), "asked": asked, "keyfrom": keyfrom})
+		"via": via, "model": q[9], "served": served, "ncalls": len(eng.calls), "asked": asked, "keyfrom": keyfrom})
 	// the concrete values go to a line-aligned side file (for humans; TLC does not need them)
-	cw.Emit(vt.M{"id": id, "k": k, "err": fmt.Sprint(err),
+	cw.Emit(vt.M{"id": id, "k": k, "via": via, "err": fmt.Sprint(err),
 		"conc": fmt.Sprintf("local=%s other=%s peer=%s/%v other=%s proto=%d hosts=%q,%q,%q badts=%v",
 			c.local, c.other, c.peerIP, c.peer16, c.otherIP, c.proto, c.peerStr, c.otherStr, c.badStr, c.badTS)})
 }
@@ -409,6 +508,7 @@ func main() {
 	scn := flag.String("scn", "scenarios.txt", "abstract requests, one per line: rpc|proto|src|dst|srcHost|dstHost|peer|allow|cert|model|why")
 	out := flag.String("out", "trace.ndjson", "output trace")
 	kmax := flag.Int("k", 1, "seeded concretisations per abstract request")
+	viaF := flag.String("via", "split", "direct | connect | both | split (each request through one of the two, by id and seed)")
 	canon := flag.Bool("canon", false, "also run the canonical concretisation (the addresses of the repository's tests)")
 	flag.Parse()
 	f, err := os.Open(*scn)
@@ -430,11 +530,22 @@ func main() {
 		if len(q) != 11 {
 			vt.Fatal("bad scenario line %q", line)
 		}
-		if *canon {
-			runCase(w, cw, rng, id, 0, q)
+		vias := []string{"direct", "connect"}
+		switch *viaF {
+		case "direct", "connect":
+			vias = []string{*viaF}
+		case "split":
+			// a mix of the point's index, so that the choice does not follow the lattice's regular order
+			h := (uint32(id)*0x9E3779B1)>>15 + uint32(vt.Seed())
+			vias = vias[h%2 : h%2+1]
 		}
-		for k := 1; k <= *kmax; k++ {
-			runCase(w, cw, rng, id, k, q)
+		for _, via := range vias {
+			if *canon {
+				runCase(w, cw, rng, id, 0, q, via)
+			}
+			for k := 1; k <= *kmax; k++ {
+				runCase(w, cw, rng, id, k, q, via)
+			}
 		}
 		id++
 	}
